@@ -342,7 +342,12 @@ def newton_consistency(case, prob, T_start, time, dt):
         if np.max(np.abs((A0.dot(T) - b) - res)) > 1e-9 * scale:
             fails.append("iteration %d: residual is not A*T - b (Jacobian inconsistent with residual), off by %.3e" % (
                 n, np.max(np.abs((A0.dot(T) - b) - res))))
-        T = T - np.linalg.solve(A0, res)
+        try:
+            T = T - np.linalg.solve(A0, res)
+        except np.linalg.LinAlgError:
+            # a steady problem without a temperature level (flux/insulated on both walls) has a singular
+            # matrix: the iterates of the real sparse solver cannot be followed; (iii) is still checked
+            break
     if np.max(np.abs(A0.dot(np.array(Tnew).flatten()) - b)) > 1e-7 * scale:
         fails.append("returned field does not solve the captured system")
     return fails
